@@ -623,7 +623,7 @@ func firstWord(s string) string {
 func init() {
 	sim.Register(&sim.Prop{
 		ID: "C19", Engine: "E-DRV", Level: "exploration", Fn: runC19, NewEnv: NewEnv,
-		Runs: map[string]int{"quick": 1600, "thorough": 50000},
+		Runs: map[string]int{"quick": 4000, "thorough": 100000},
 		Rule: "per run: a database from the workload generator; a query `SELECT *|cols FROM t` (drawn column list) through the driver vs the native Select; inside a testing/synctest bubble one of four modes: (0) database/sql: read k rows (k drawn 0..n+1) then read to the end / rows.Close / cancel+Close / cancel+drain; (1) driver.Stmt on a tracing pager with the producer goroutine parked at EVERY page read: a seeded schedule of {release producer, Next (in its own goroutine, may be outstanding while the producer is parked), cancel, Close} one action at a time with synctest.Wait between; (2) the same with a read error injected at the k-th page read of the scan; (3) error inputs (unknown table/column, non-SELECT, unparsable, Exec); oracles: same rows/order/columns as native, errors surface through Query/Next/rows.Err/Close, no goroutine of the bubble left blocked (synctest deadlock report), no POSIX lock of the process left on the file, a SQLite write succeeds afterwards; evaluations = scenarios; non-trivial = table had rows; distinct = distinct event logs",
 		Real: append([]string{"sqlittle driver package, database/sql (real, inside the bubble), producer goroutine; unix file pager on real files"}, realAll...),
 		Stub: []string{"none: the gate in the tracing pager only parks the producer"},
